@@ -65,7 +65,9 @@ static void one_discover(size_t mtu, int count, int pos, int shape, int null_mac
     static int p[6]; p[0] = 0; p[1] = (int)mtu; p[2] = count; p[3] = pos + 8; p[4] = shape; p[5] = null_mac;
     e1_manual_path(&pseudo, p, 6);
     int ev = derive_session_event(buf, T, null_mac ? NULL : OWN);
-    evals++;
+    int ev2 = derive_session_event_len(buf, 36 + 6 * (size_t)count, T, null_mac ? NULL : OWN);      /* as the Darwin daemon calls it */
+    evals += 2;
+    if (ev2 != ev) vf_violation("classify:length-bounded-variant-differs", "Discover with %d stations received completely: derive_session_event_len -> %s, derive_session_event -> %s", count, evname(ev2), evname(ev));
     vf_outcome(vf_hash64(&ev, sizeof ev, (uint64_t)(pos >= 0) + 2u * (uint64_t)shape));
     if (A.verbose) printf("    Discover(count=%d, own address %s, table: %s) -> %s\n", count, pos >= 0 ? "listed" : "not listed", TBNAME[shape], evname(ev));
     if (null_mac) return;                       /* only memory safety is demanded without an own address */
